@@ -368,7 +368,7 @@ def apply_edit(w, c):
 
 
 def run_worker(w, idx, queue, lock, props_mode, results_path):
-    cache = os.path.join(VERIF, ".cache", "sweep-%d" % idx)
+    cache = os.path.join(VERIF, ".cache", "sweep-" + os.path.basename(w))
     ev = os.path.join(cache, "ev")
     os.makedirs(ev, exist_ok=True)
     while True:
@@ -382,7 +382,7 @@ def run_worker(w, idx, queue, lock, props_mode, results_path):
         if not apply_edit(w, c):
             res["status"] = "stale"
         else:
-            env = dict(os.environ, VERIF_REPO=w, VERIF_EVIDENCE_DIR=ev, VERIF_REPORT_DIR=ev, VERIF_FACTS_TAG="sw%d-" % idx, VERIF_CACHE_DIR=cache,
+            env = dict(os.environ, VERIF_REPO=w, VERIF_EVIDENCE_DIR=ev, VERIF_REPORT_DIR=ev, VERIF_FACTS_TAG="sw-%s-" % os.path.basename(w), VERIF_CACHE_DIR=cache,
                        VERIF_SKIP_ENGINE_SELFTEST="1", VERIF_NO_SELFTEST="1")
             target = "all" if props_mode == "all" else c["prop"]
             r = subprocess.run([os.path.join(VERIF, "check"), target], env=env, capture_output=True, text=True)
@@ -395,10 +395,10 @@ def run_worker(w, idx, queue, lock, props_mode, results_path):
             else:
                 # silent: does the pinned suite reject it anyway?
                 try:
-                    t = subprocess.run("cargo test --workspace --no-fail-fast --offline 2>&1 | tail -60", shell=True, cwd=w, capture_output=True, text=True, timeout=1500,
+                    t = subprocess.run("cargo test --workspace --no-fail-fast --offline 2>&1", shell=True, cwd=w, capture_output=True, text=True, timeout=1500,
                                        env=dict(os.environ, CARGO_NET_OFFLINE="true", CARGO_TARGET_DIR=os.path.join(w, "target")))
                     out = t.stdout
-                    failed = re.search(r"test result: FAILED|error: test failed|error\[|could not compile|panicked", out)
+                    failed = t.returncode != 0 or re.search(r"test result: FAILED|targets? failed|could not compile", out)
                     passed = re.search(r"test result: ok", out)
                     if failed or not passed:
                         res["status"] = "killed-by-tests"
@@ -417,8 +417,11 @@ def run_worker(w, idx, queue, lock, props_mode, results_path):
         sh("git -C %s checkout -- ." % w)
 
 
-def run(workers, limit, props_mode, only_props):
+def run(workers, limit, props_mode, only_props, shard=None):
     plan = [json.loads(l) for l in open(os.path.join(SW, "plan.jsonl"))]
+    if shard:
+        i, n = [int(x) for x in shard.split("/")]
+        plan = [c for k, c in enumerate(plan) if k % n == i]
     rp = os.path.join(SW, "results.jsonl")
     done = set()
     if os.path.exists(rp):
@@ -485,7 +488,7 @@ def main():
         workers = opt("--workers").split(",")
         lim = int(opt("--limit", "0"))
         only = [x for x in a[1:] if re.match(r"^C\d\d$", x)]
-        run(workers, lim, opt("--props", "all"), only)
+        run(workers, lim, opt("--props", "all"), only, opt("--shard"))
     elif a[0] == "report":
         report()
     return 0
